@@ -19,7 +19,7 @@ const c01QuickPrograms = 20000
 
 func (c01) Budget(tier string) int {
 	if tier == "thorough" {
-		return 120000 + sweepChunks*2
+		return 600000 + sweepChunks*2
 	}
 	return c01QuickPrograms + sweepChunks
 }
@@ -47,7 +47,7 @@ func (c01) Generate(r *engine.Rand, index int, tier string) *engine.Scenario {
 	sc := &engine.Scenario{}
 	progs := c01QuickPrograms
 	if tier == "thorough" {
-		progs = 120000
+		progs = 600000
 	}
 	if index >= progs {
 		genSweep(r, sc, index-progs)
